@@ -837,6 +837,9 @@ func init() {
 			jobs = append(jobs, Job{Harness: "VX_C17_csv_declared", Params: P()})
 			// null stays distinct from every value also when two enum columns with different dictionaries are compared
 			jobs = append(jobs, Job{Harness: "VX_C09_enum_dicts"}, Job{Harness: "VX_C17_slice_sorted"}, Job{Harness: "VX_C08_enum_empty"})
+			for _, op := range []string{"none", "aggregate", "distinct", "sort", "filter", "copy", "qframes"} {
+				jobs = append(jobs, Job{Harness: "VX_C17_history", Params: P("op", op)})
+			}
 			return jobs
 		},
 		Bounds: func(tier string) string {
